@@ -1,4 +1,4 @@
-import JadeModel.Proofs.SystemUniqueTraceDefs
+import JadeModel.Proofs.SystemUniqueNodeDefs
 
 set_option linter.unusedSimpArgs false
 
